@@ -702,6 +702,82 @@ def flag_predicate_rule(ctx, chk, unit, m, group, fn, width, where, written):
     from domains import Lin, bits_all_deps
     M_, H = 1 << width, 1 << (width - 1)
     names = [l["name"] or f"arg{i}" for i, l in enumerate(fn["locals"][1:fn["argc"] + 1], 1)][1:]
+    if m == "neg":
+        # NEG sets its flags by hand-written branches on the operand: on the operand cells {0}, [1,MIN-1], {MIN},
+        # [MIN+1,MAX] every branch is decided and CF, OF, ZF, SF are constants (0 - val: CF = val != 0, OF = val == MIN,
+        # ZF = val == 0, SF = top bit of -val), which the final flag word must show
+        cells = [((0, 0), {"CF": 0, "OF": 0, "ZF": 1, "SF": 0}), ((1, H - 1), {"CF": 1, "OF": 0, "ZF": 0, "SF": 1}),
+                 ((H, H), {"CF": 1, "OF": 1, "ZF": 0, "SF": 1}), ((H + 1, M_ - 1), {"CF": 1, "OF": 0, "ZF": 0, "SF": 0})]
+        res = {}
+        for (lo, hi), want in cells:
+            kw = {"specialise": {names[0]: lo}} if lo == hi else {"ranges": {names[0]: (lo, hi)}}
+            try:
+                s = summarize_fn(ctx, fn, **kw)
+            except Unsupported as e:
+                for f in want:
+                    res.setdefault(f, []).append(("undecided", str(e)))
+                continue
+            for f, wv in want.items():
+                if f not in written:
+                    continue
+                gb = s.flag.bits[FBIT[f]] if not s.st.dead and s.flag.kind == "int" else None
+                if gb == wv:
+                    res.setdefault(f, []).append(("ok", ""))
+                elif gb in (0, 1):
+                    res.setdefault(f, []).append(("bad", f"{f} = {gb} for {names[0]} in [{lo},{hi}], the manual gives {wv}"))
+                else:
+                    # not a constant on this cell: does it follow the flag's own previous value?  (partition on it)
+                    verdict = ("undecided", f"{f} is not a constant for {names[0]} in [{lo},{hi}]")
+                    for old in (1 - wv, wv):
+                        try:
+                            s2 = summarize_fn(ctx, fn, assume={("flag", FBIT[f]): old}, **kw)
+                        except Unsupported:
+                            continue
+                        g2 = s2.flag.bits[FBIT[f]] if not s2.st.dead and s2.flag.kind == "int" else None
+                        if g2 in (0, 1) and g2 != wv:
+                            verdict = ("bad", f"{f} = {g2} for {names[0]} in [{lo},{hi}] when {f} was {old} before, the manual gives {wv}")
+                            break
+                    res.setdefault(f, []).append(verdict)
+        # AF = borrow out of bit 3 of 0 - val = (val mod 16 != 0): not a constant on any cell; the helper sets it on the two
+        # sides of a hand-written branch whose condition V has as a closed form
+        if "AF" in written:
+            from insn import branch_flag_conditions
+            try:
+                sf = summarize_fn(ctx, fn, record_switch=True)
+                conds = branch_flag_conditions(ctx, fn, sf)
+            except Unsupported:
+                conds = {}
+            if FBIT["AF"] not in conds:
+                res.setdefault("AF", []).append(("undecided", "AF is not set and cleared on the two sides of one branch of the helper"))
+            else:
+                d_, truth, arm = conds[FBIT["AF"]]
+                rg = sf.I.atom_ranges()
+                have = _norm_pred(d_, rg) if arm is None else (("zero" if truth else "nonzero", d_.aff.sub(Lin(arm)).simplify(rg)) if d_.aff is not None else None)
+                if have is not None and arm is None and not truth:
+                    have = _negate(have)
+                want_af = ("pos", Lin.atom(names[0]).mod(16).simplify(rg))
+                if have is None:
+                    res.setdefault("AF", []).append(("undecided", "the branch condition of AF has no closed form"))
+                else:
+                    r_ = _compare_preds(have, want_af, rg)
+                    if r_ == "equal":
+                        res.setdefault("AF", []).append(("ok", ""))
+                    elif r_ == "unknown":
+                        res.setdefault("AF", []).append(("undecided", f"{_pred_show(have)} not comparable with {_pred_show(want_af)}"))
+                    else:
+                        env = r_[1]
+                        res.setdefault("AF", []).append(("bad", f"AF is set iff [{_pred_show(have)}], the manual sets it iff the low nibble of the operand is not 0 "
+                                                         f"[{_pred_show(want_af)}]; they differ for " + ", ".join(f"{k}={v_}" for k, v_ in sorted(env.items()))))
+        for f, lst in sorted(res.items()):
+            bad = [t for k, t in lst if k == "bad"]
+            und = [t for k, t in lst if k == "undecided"]
+            if bad:
+                chk.violation("C01.R12", unit, f"{f}-formula", f"{fn['name']}: {bad[0]}", where, witness=bad[0])
+            elif und:
+                chk.undecided_("C01.R12", f"{unit}:{f}", und[0])
+            else:
+                chk.ok("C01.R12", f"{unit}:{f}", "as the manual defines, on each of the four operand cells" if f != "AF" else "AF iff the low nibble of the operand is not 0")
+        return
     carries = [0, 1] if m in ("adc", "sbb") else [None]
     results = {}
     for cv in carries:
